@@ -2974,6 +2974,7 @@ template <typename T>
         report_missed("Unfulfilled expectation");
       }
       this->unlink();
+      sequences->retire();
     }
 
     bool
